@@ -92,6 +92,11 @@ func (s *Spec) msgsOf(ctx sdk.Context, kind string) []sdk.Msg {
 	case "spendLarge":
 		return []sdk.Msg{&distrtypes.MsgCommunityPoolSpend{Authority: world.GovAuthority(), Recipient: w.A("u2").Bech(), Amount: sdk.NewCoins(world.FXCoin(200000))},
 			&distrtypes.MsgCommunityPoolSpend{Authority: world.GovAuthority(), Recipient: w.A("u1").Bech(), Amount: sdk.NewCoins(world.FXCoin(300000))}}
+	case "spendSecondFails":
+		// same type, accepted at submission; the second message is refused when executed (the recipient is a module
+		// account that may not receive funds), so nothing of the proposal may take effect
+		return []sdk.Msg{&distrtypes.MsgCommunityPoolSpend{Authority: world.GovAuthority(), Recipient: w.A("u2").Bech(), Amount: sdk.NewCoins(world.FXCoin(1000))},
+			&distrtypes.MsgCommunityPoolSpend{Authority: world.GovAuthority(), Recipient: authtypes.NewModuleAddress(distrtypes.ModuleName).String(), Amount: sdk.NewCoins(world.FXCoin(1000))}}
 	case "mixed":
 		p := w.App.EthKeeper.GetParams(ctx)
 		return []sdk.Msg{&erc20types.MsgToggleTokenConversion{Authority: world.GovAuthority(), Token: "FX"}, &cctypes.MsgUpdateParams{ChainName: "eth", Authority: world.GovAuthority(), Params: p}}
@@ -109,7 +114,7 @@ func (s *Spec) customOf(ctx sdk.Context, typeURL string) (fxgovtypes.CustomParam
 func (s *Spec) minDeposit(ctx sdk.Context, p *PInfo) sdkmath.Int {
 	params, _ := s.w.App.GovKeeper.Params.Get(ctx)
 	def := sdk.NewCoins(params.MinDeposit...).AmountOf("FX")
-	if p.Kind != "spendSmall" && p.Kind != "spendLarge" {
+	if p.Kind != "spendSmall" && p.Kind != "spendLarge" && p.Kind != "spendSecondFails" {
 		return def
 	}
 	cp, ok := s.customOf(ctx, sdk.MsgTypeURL(&distrtypes.MsgCommunityPoolSpend{}))
@@ -206,7 +211,7 @@ func (s *Spec) Ops(st *explore.State) []explore.Op {
 		for _, k := range []string{"toggle", "params", "spendSmall", "spendLarge"} {
 			ops = append(ops, s.submitOp(k, 1000), s.submitOp(k, 10000))
 		}
-		ops = append(ops, s.submitOp("mixed", 10000))
+		ops = append(ops, s.submitOp("mixed", 10000), s.submitOp("spendSecondFails", 10000))
 	}
 	var ids []uint64
 	for id := range m.Props {
@@ -426,6 +431,8 @@ func (s *Spec) Check(st *explore.State) {
 			case "spendLarge":
 				received["u2"] = received["u2"].Add(world.FX(200000))
 				received["u1"] = received["u1"].Add(world.FX(300000))
+			case "spendSecondFails":
+				st.Violate("messages-all-or-nothing", sig("proposal-passed-although-a-message-failed"), fmt.Sprintf("proposal %d is PASSED although its second message cannot execute", id))
 			}
 		}
 	}
